@@ -250,6 +250,20 @@ def build_ops():
         ops.append((f"pipeline:{nm}:v1u", op_pipeline(_file(d, 102, "v1u", False), {"version": 102, "close_elements": False})))
         ops.append((f"pipeline:{nm}:v2pretty", op_pipeline(_file(d, 203, "v2", True), {"version": 220, "prettyprint": True})))
         ops.append((f"pipeline:{nm}:v1c", op_pipeline(_file(d, 160, "v1c", False), {"version": 103, "prettyprint": True, "close_elements": True})))
+    # one small statement in five variants that differ only in the GMT offsets of its date-times: concurrent
+    # conversions then go through the very same shared field converters with different zone data
+    for k, (off, pos) in enumerate([("[-5:EST]", "[-5:EST]"), ("[+5.30:IST]", "[+5.30:IST]"), ("[0:GMT]", ""),
+                                    ("[+2:EET]", "[-8:PST]"), ("", "[+1:CET]")]):
+        d = ("OFX", [("SIGNONMSGSRSV1", [("SONRS", [("STATUS", [("CODE", "0"), ("SEVERITY", "INFO")]),
+                                                    ("DTSERVER", "20230301170000.000" + off), ("LANGUAGE", "ENG")])]),
+                     ("BANKMSGSRSV1", [("STMTTRNRS", [("TRNUID", "1"), peers.status_doc(0), ("STMTRS", [
+                         ("CURDEF", "USD"), ("BANKACCTFROM", [("BANKID", "1"), ("ACCTID", "2"), ("ACCTTYPE", "CHECKING")]),
+                         ("BANKTRANLIST", [("DTSTART", "20230201000000.000" + off), ("DTEND", "20230301000000.000" + pos),
+                                           ("STMTTRN", [("TRNTYPE", "CHECK"), ("DTPOSTED", "20230215120000.000" + pos),
+                                                        ("TRNAMT", "-1.00"), ("FITID", "T1")])]),
+                         ("LEDGERBAL", [("BALAMT", "9.00"), ("DTASOF", "20230301170000.000" + off)])])])])])
+        ops.append((f"pipeline:tzvar:{k}", op_pipeline(_file(d, 102 if k % 2 else 203, "v1u", False),
+                                                       {"version": 203})))
     for nm in ("bad_enum", "missing_required", "out_of_order"):
         ops.append((f"pipeline:{nm}", op_pipeline(_file(docs[nm], 102, "v1u", False), {})))
     ops.append(("header:v1", op_header(_file(docs["stmt"], 102, "v1u", False))))
@@ -442,6 +456,13 @@ class Threads:
                              step_cap=6_000_000)
         sched.CURRENT = self.sim
         self.sim.line_probe = self.line_probe
+        if ch.flag("cfg.hotzone", 0.35):
+            # converters are class-level singletons shared by all instances (the property's own anchor): stall
+            # tasks inside them so that another task runs through the same converter meanwhile
+            self.sim.hot_files = ("ofxtools/Types.py", "functools.py")
+            self.sim.hot_k = [25, 60, 12][ch.pick("cfg.hotzone.k", 3)]
+            self.sim.hot_salt = ch.pick("cfg.hotzone.salt", 1 << 20)
+            self.sim.count("probe.hotzone_runs")
         self.violations = []
         self.vkeys = set()
         self.judged = 0
@@ -499,9 +520,25 @@ class Threads:
         shape = ch.weighted("cfg.tasks", [2, 4, 3, 2, 1, 1, 1])
         n_tasks = [1, 2, 3, 4, 5, 6, 16][shape]
         tiny = [n for n in names if n.startswith(("type:", "header:", "from_etree:"))]
+        # swarm: in part of the runs every task draws from one family of related operations, so that the
+        # tasks contend for the same shared objects (class-level converters, dispatch registries)
+        fams = {}
+        for n in names:
+            parts = n.split(":")
+            fam = ":".join(parts[:2]) if parts[0] in ("pipeline", "type", "tests") else parts[0]
+            fam = fam.split(".")[0]
+            fams.setdefault(fam, []).append(n)
+        famlist = sorted(k for k, v in fams.items() if len(v) >= 3)
+        focus = None
+        if famlist and ch.flag("cfg.focus", 0.4):
+            # date-time handling is where the shared converters carry run-time state: weight it up
+            weights = [6 if ("tzvar" in k or "DateTime" in k or "Time" in k) else 1 for k in famlist]
+            focus = fams[famlist[ch.weighted("cfg.focus.family", weights)]]
+            sim.log(f"focus family: {focus[0].rsplit(':', 1)[0]} ({len(focus)} operations)")
+            sim.count("probe.focus_runs")
         plans = []
         for t in range(n_tasks):
-            pool = tiny if n_tasks == 16 else names
+            pool = focus if focus is not None else (tiny if n_tasks == 16 else names)
             k = 1 + ch.pick("task.ops", 3)
             plans.append([pool[ch.pick("task.op", len(pool))] for _ in range(k)])
 
